@@ -21,6 +21,7 @@ import (
 	"os"
 	"runtime"
 	"sync"
+	"sync/atomic"
 	"time"
 
 	mqtt "github.com/at-wat/mqtt-go"
@@ -28,7 +29,33 @@ import (
 
 func init() { register("C17", runC17) }
 
-const c17Wait = 20 * time.Second
+// Every wait for the library is limited: 8 s for the first expiries (the quick tier must survive a
+// 10x slowdown; the awaited events normally take microseconds), 1 s once two waits have expired
+// (the verdict is a violation by then), and after six expiries the remaining cases are skipped.
+// An expired wait is an observation ("stuck" = violation), never a hang of the harness.
+const c17Wait = 8 * time.Second
+const c17Park = 60 * time.Second // library goroutines parked in a gate until the scenario releases them
+
+var c17Expired int32
+
+func c17Limit() time.Duration {
+	if atomic.LoadInt32(&c17Expired) >= 2 {
+		return time.Second
+	}
+	return c17Wait
+}
+
+func c17GiveUp() bool { return atomic.LoadInt32(&c17Expired) >= 6 }
+
+// c17Call runs a call into the library on its own goroutine and waits for it with the limit.
+func c17Call(f func()) bool {
+	done := make(chan struct{})
+	go func() {
+		defer close(done)
+		f()
+	}()
+	return c17WaitCh(done)
+}
 
 // ---------------------------------------------------------------- labels
 
@@ -38,9 +65,14 @@ type c17Label struct {
 	M  int    // message tag (ib), also its packet identifier
 	H  int    // handler tag (uh dl); 0 = nil
 	Q  byte   // QoS of the inbound message (ib)
+	Re bool   // ib: the handler that is called for this message calls Handle(H) before it returns
 }
 
-func (l c17Label) coq() string {
+// coq renders the label; reentered: the handler did make the Handle call this message asks for
+func (l c17Label) coq(reentered bool) string {
+	if l.Op == "ib" && l.Re && reentered {
+		return fmt.Sprintf("ih %d %d %d", l.K, l.M, l.H)
+	}
 	switch l.Op {
 	case "uh", "dl":
 		return fmt.Sprintf("%s %d", l.Op, l.H)
@@ -76,6 +108,9 @@ func (l c17Label) desc() string {
 	case "ca":
 		return fmt.Sprintf("CONNACK(#%d)", l.K)
 	case "ib":
+		if l.Re {
+			return fmt.Sprintf("PUBLISH(#%d,m%d,q%d)[the handler called for it calls Handle(%s)]", l.K, l.M, l.Q, h(l.H))
+		}
 		return fmt.Sprintf("PUBLISH(#%d,m%d,q%d)", l.K, l.M, l.Q)
 	case "cr":
 		return fmt.Sprintf("Connect-returns(#%d)", l.K)
@@ -85,10 +120,10 @@ func (l c17Label) desc() string {
 	return l.Op
 }
 
-func c17Coq(ls []c17Label) string {
+func c17Coq(ls []c17Label, g *c17Log) string {
 	var s []string
 	for _, l := range ls {
-		s = append(s, l.coq())
+		s = append(s, l.coq(g != nil && g.didReenter(l.M)))
 	}
 	return cListInline(s)
 }
@@ -106,8 +141,16 @@ func c17Desc(ls []c17Label) []string {
 type c17Hand struct{ H, K, M int }
 
 type c17Log struct {
-	mu    sync.Mutex
-	hands []c17Hand
+	mu        sync.Mutex
+	hands     []c17Hand
+	reenter   func(h int)  // RetryClient.Handle / ReconnectClient.Handle of the scenario
+	reentered map[int]bool // message tag -> the Handle call made from inside the callback returned
+}
+
+func (g *c17Log) didReenter(m int) bool {
+	g.mu.Lock()
+	defer g.mu.Unlock()
+	return g.reentered[m]
 }
 
 func (g *c17Log) handler(h int) mqtt.Handler {
@@ -116,13 +159,23 @@ func (g *c17Log) handler(h int) mqtt.Handler {
 	}
 	return mqtt.HandlerFunc(func(msg *mqtt.Message) {
 		k, m := -1, -1
-		if len(msg.Payload) == 3 {
+		if len(msg.Payload) >= 3 {
 			k = int(msg.Payload[0])
 			m = int(msg.Payload[1])<<8 | int(msg.Payload[2])
 		}
 		g.mu.Lock()
 		g.hands = append(g.hands, c17Hand{h, k, m})
 		g.mu.Unlock()
+		if len(msg.Payload) == 5 && msg.Payload[3] == 1 && g.reenter != nil {
+			// replace the handler from inside the callback, on the reader goroutine
+			g.reenter(int(msg.Payload[4]))
+			g.mu.Lock()
+			if g.reentered == nil {
+				g.reentered = map[int]bool{}
+			}
+			g.reentered[m] = true
+			g.mu.Unlock()
+		}
 	})
 }
 
@@ -138,13 +191,24 @@ func c17WaitCh(ch <-chan struct{}) bool {
 		return true
 	default:
 	}
-	t := time.NewTimer(c17Wait)
+	t := time.NewTimer(c17Limit())
 	defer t.Stop()
 	select {
 	case <-ch:
 		return true
 	case <-t.C:
+		atomic.AddInt32(&c17Expired, 1)
 		return false
+	}
+}
+
+// c17ParkOn: a library goroutine waits in a gate for the scenario (not an observation)
+func c17ParkOn(ch <-chan struct{}) {
+	t := time.NewTimer(c17Park)
+	defer t.Stop()
+	select {
+	case <-ch:
+	case <-t.C:
 	}
 }
 
@@ -165,6 +229,13 @@ type c17Conn struct {
 	connectDone                 chan struct{} // the goroutine calling RetryClient.Connect finished (seq/race)
 	optOnce, cwOnce, actOnce    sync.Once
 	readerMayRun                bool
+	autoAccept                  []byte          // if set: what the broker sends as soon as CONNECT arrives (stress family)
+	done                        <-chan struct{} // BaseClient.Done() of this client, fetched once after CONNECT was written
+}
+
+// fetchDone: BaseClient.Done() takes the client's lock, so it is called once, early, and guarded
+func (c *c17Conn) fetchDone() bool {
+	return c17Call(func() { c.done = c.cli.Done() })
 }
 
 func c17NewConn(k int, g *c17Log, dialH int, gateWrite bool) *c17Conn {
@@ -180,8 +251,11 @@ func c17NewConn(k int, g *c17Log, dialH int, gateWrite bool) *c17Conn {
 		switch pkt[0] & 0xF0 {
 		case 0x10:
 			c.cwOnce.Do(func() { close(c.connectWritten) })
+			if c.autoAccept != nil {
+				c.mc.send(c.autoAccept)
+			}
 			if c.connGate != nil {
-				c17WaitCh(c.connGate)
+				c17ParkOn(c.connGate)
 			}
 		case 0x40, 0x70:
 			if len(pkt) >= 4 {
@@ -195,7 +269,7 @@ func c17NewConn(k int, g *c17Log, dialH int, gateWrite bool) *c17Conn {
 		if st == mqtt.StateActive {
 			c.actOnce.Do(func() {
 				close(c.activeArrive)
-				c17WaitCh(c.activeRelease)
+				c17ParkOn(c.activeRelease)
 			})
 		}
 	}
@@ -210,7 +284,7 @@ func c17NewConn(k int, g *c17Log, dialH int, gateWrite bool) *c17Conn {
 func (c *c17Conn) optGate() {
 	c.optOnce.Do(func() {
 		close(c.optArrive)
-		c17WaitCh(c.optRelease)
+		c17ParkOn(c.optRelease)
 	})
 }
 
@@ -232,7 +306,13 @@ func (c *c17Conn) expect(id uint16) chan struct{} {
 	return ch
 }
 
-func c17Payload(k, m int) []byte { return []byte{byte(k), byte(m >> 8), byte(m)} }
+func c17Payload(l c17Label) []byte {
+	p := []byte{byte(l.K), byte(l.M >> 8), byte(l.M)}
+	if l.Re {
+		p = append(p, 1, byte(l.H))
+	}
+	return p
+}
 
 // sendGroup sends (optionally the CONNACK and) the messages in ONE send, so that they are what the
 // reader sees next, back to back; returns per message whether the reader is known to have processed
@@ -244,7 +324,7 @@ func (c *c17Conn) sendGroup(connack bool, msgs []c17Label) []bool {
 	}
 	waits := make([]chan struct{}, len(msgs))
 	for i, m := range msgs {
-		b = append(b, encPublish(inMsg{Topic: []byte("t"), ID: uint16(m.M), QoS: m.Q, Payload: c17Payload(m.K, m.M)})...)
+		b = append(b, encPublish(inMsg{Topic: []byte("t"), ID: uint16(m.M), QoS: m.Q, Payload: c17Payload(m)})...)
 		if m.Q > 0 {
 			waits[i] = c.expect(uint16(m.M))
 		}
@@ -277,12 +357,12 @@ func (c *c17Conn) waitAck(ch chan struct{}) bool {
 		return true
 	default:
 	}
-	t := time.NewTimer(c17Wait)
+	t := time.NewTimer(c17Limit())
 	defer t.Stop()
 	select {
 	case <-ch:
 		return true
-	case <-c.cli.Done():
+	case <-c.done: // nil (blocks) if it could not be fetched
 		select {
 		case <-ch:
 			return true
@@ -290,6 +370,7 @@ func (c *c17Conn) waitAck(ch chan struct{}) bool {
 			return false
 		}
 	case <-t.C:
+		atomic.AddInt32(&c17Expired, 1)
 		return false
 	}
 }
@@ -324,7 +405,9 @@ type c17Bare struct {
 }
 
 func c17NewBare() *c17Bare {
-	return &c17Bare{rc: &mqtt.RetryClient{}, log: &c17Log{}, cur: -1, processed: map[int]bool{}}
+	b := &c17Bare{rc: &mqtt.RetryClient{}, log: &c17Log{}, cur: -1, processed: map[int]bool{}}
+	b.log.reenter = func(h int) { b.rc.Handle(b.log.handler(h)) }
+	return b
 }
 
 // exec runs the labels in order; every label is complete (its effect has happened) before the next
@@ -335,11 +418,17 @@ func (b *c17Bare) exec(ls []c17Label) bool {
 		l := ls[i]
 		switch l.Op {
 		case "uh":
-			b.rc.Handle(b.log.handler(l.H))
+			if !c17Call(func() { b.rc.Handle(b.log.handler(l.H)) }) {
+				b.problem = fmt.Sprintf("label %d (%s): Handle did not return", i, l.desc())
+				return false
+			}
 		case "dl":
 			b.conns = append(b.conns, c17NewConn(len(b.conns), b.log, l.H, false))
 		case "sc":
-			b.rc.SetClient(ctx, b.conns[l.K].cli)
+			if !c17Call(func() { b.rc.SetClient(ctx, b.conns[l.K].cli) }) {
+				b.problem = fmt.Sprintf("label %d (%s): SetClient did not return", i, l.desc())
+				return false
+			}
 			b.cur = l.K
 		case "cb":
 			c := b.conns[b.cur]
@@ -363,6 +452,10 @@ func (b *c17Bare) exec(ls []c17Label) bool {
 				b.problem = fmt.Sprintf("label %d (%s): CONNECT was not written", i, l.desc())
 				return false
 			}
+			if !c.fetchDone() {
+				b.problem = fmt.Sprintf("label %d (%s): BaseClient.Done did not return", i, l.desc())
+				return false
+			}
 		case "ca", "ib":
 			c := b.conns[l.K]
 			j := i
@@ -376,6 +469,10 @@ func (b *c17Bare) exec(ls []c17Label) bool {
 			done := c.sendGroup(l.Op == "ca", ls[j:e])
 			for x, d := range done {
 				b.processed[ls[j+x].M] = d
+				if !d {
+					b.problem = fmt.Sprintf("label %d (%s): the reader never got past this message (no acknowledgement)", j+x, ls[j+x].desc())
+					return false
+				}
 			}
 			i = e - 1
 		case "cr":
@@ -392,13 +489,9 @@ func (b *c17Bare) exec(ls []c17Label) bool {
 		case "en":
 			c := b.conns[l.K]
 			c.mc.Close()
-			if c.readerMayRun {
-				select {
-				case <-c.cli.Done():
-				case <-time.After(c17Wait):
-					b.problem = fmt.Sprintf("label %d (%s): reader did not finish", i, l.desc())
-					return false
-				}
+			if c.readerMayRun && !c17WaitCh(c.done) {
+				b.problem = fmt.Sprintf("label %d (%s): reader did not finish", i, l.desc())
+				return false
 			}
 		}
 	}
@@ -517,7 +610,12 @@ func (g *c17Gen) msgs(k, n int) {
 		case x < 5:
 			q = 2
 		}
-		g.add(c17Label{Op: "ib", K: k, M: g.nextM, Q: q})
+		l := c17Label{Op: "ib", K: k, M: g.nextM, Q: q}
+		if g.r.Intn(8) == 0 {
+			// the handler that gets this message replaces the handler from inside its callback
+			l.Re, l.H = true, g.handle().H
+		}
+		g.add(l)
 		g.nextM++
 	}
 }
@@ -619,6 +717,11 @@ func c17Skeleton(which int) []c17Label {
 	case 0: // two consecutive connections, messages right behind each CONNACK and later
 		return []c17Label{{Op: "dl"}, op("sc", 0), {Op: "cb"}, op("cs", 0), op("ca", 0), ib(0, 1, 0), ib(0, 2, 1), op("cr", 0), ib(0, 3, 1),
 			op("en", 0), {Op: "dl"}, op("sc", 1), {Op: "cb"}, op("cs", 1), op("ca", 1), ib(1, 4, 1), op("cr", 1), ib(1, 5, 2)}
+	case 2: // handlers that replace the handler from inside their callback (new one, the same one again, nil)
+		re := func(k, m int, q byte, h int) c17Label { return c17Label{Op: "ib", K: k, M: m, Q: q, Re: true, H: h} }
+		return []c17Label{{Op: "dl"}, op("sc", 0), {Op: "cb"}, op("cs", 0), op("ca", 0), ib(0, 1, 1), re(0, 2, 1, 5), ib(0, 3, 1), op("cr", 0),
+			re(0, 4, 2, 5), ib(0, 5, 1), op("en", 0), {Op: "dl"}, op("sc", 1), {Op: "cb"}, op("cs", 1), op("ca", 1), ib(1, 6, 0), re(1, 7, 1, 6),
+			ib(1, 8, 1), op("cr", 1), re(1, 9, 1, 0), ib(1, 10, 1)}
 	default: // SetClient while connection 0 is still read (bare RetryClient only)
 		return []c17Label{{Op: "dl"}, op("sc", 0), {Op: "cb"}, op("cs", 0), op("ca", 0), ib(0, 1, 1), op("cr", 0), {Op: "dl"}, op("sc", 1),
 			ib(0, 2, 1), {Op: "cb"}, ib(0, 3, 1), op("cs", 1), op("ca", 1), ib(1, 4, 1), ib(0, 5, 1), op("cr", 1), op("en", 0), ib(1, 6, 1)}
@@ -634,6 +737,7 @@ func c17Normalise(ls []c17Label) []c17Label {
 			if i+1 >= len(out) || out[i+1].Op != "ib" || out[i+1].K != out[i].K {
 				out[i].Q = 1
 			}
+
 		}
 	}
 	return out
@@ -688,12 +792,22 @@ func c17RunLoop(pre []int, eps []c17Epoch) (labels []c17Label, g *c17Log, proces
 	if err != nil {
 		return nil, g, processed, "NewReconnectClient: " + err.Error()
 	}
-	handle := func(h int) {
-		cli.Handle(g.handler(h))
+	g.reenter = func(h int) { cli.Handle(g.handler(h)) }
+	handle := func(h int) bool {
 		labels = append(labels, c17Label{Op: "uh", H: h})
+		return c17Call(func() { cli.Handle(g.handler(h)) })
 	}
-	for _, h := range pre {
-		handle(h)
+	handles := func(hs []int, where string) bool {
+		for _, h := range hs {
+			if !handle(h) {
+				problem = "Handle did not return (" + where + ")"
+				return false
+			}
+		}
+		return true
+	}
+	if !handles(pre, "before Connect") {
+		return
 	}
 	opt := func(o *mqtt.ConnectOptions) error {
 		curMu.Lock()
@@ -707,7 +821,7 @@ func c17RunLoop(pre []int, eps []c17Epoch) (labels []c17Label, g *c17Log, proces
 	connectDone := make(chan struct{})
 	go func() {
 		defer close(connectDone)
-		ctx, cancel := context.WithTimeout(context.Background(), 10*c17Wait)
+		ctx, cancel := context.WithTimeout(context.Background(), 20*c17Wait)
 		defer cancel()
 		_, _ = cli.Connect(ctx, "c17", opt)
 	}()
@@ -719,7 +833,7 @@ func c17RunLoop(pre []int, eps []c17Epoch) (labels []c17Label, g *c17Log, proces
 			c.releaseAll()
 		}
 		if !disconnected {
-			// a wait expired: stop the reconnect loop anyway
+			// a wait expired: try to stop the reconnect loop anyway (may block for ever: own goroutine)
 			go func() {
 				ctx, cancel := ctxTimeout(c17Wait)
 				defer cancel()
@@ -728,47 +842,64 @@ func c17RunLoop(pre []int, eps []c17Epoch) (labels []c17Label, g *c17Log, proces
 		}
 	}()
 	firstOK := false
+	sendGroup := func(c *c17Conn, connack bool, grp []c17Label) bool {
+		done := c.sendGroup(connack, grp)
+		for x, d := range done {
+			processed[grp[x].M] = d
+			if !d {
+				problem = fmt.Sprintf("%s: the reader never got past this message (no acknowledgement)", grp[x].desc())
+				return false
+			}
+		}
+		return true
+	}
 	for k, ep := range eps {
-		select {
-		case <-dialArrive:
-		case <-time.After(c17Wait):
-			return labels, g, processed, fmt.Sprintf("connection #%d: the reconnect loop did not dial", k)
+		if !c17WaitCh(dialArrive) {
+			problem = fmt.Sprintf("connection #%d: the reconnect loop did not dial", k)
+			return
 		}
 		c := c17NewConn(k, g, ep.DialH, true)
 		conns = append(conns, c)
 		labels = append(labels, c17Label{Op: "dl", H: ep.DialH})
-		for _, h := range ep.AtDial {
-			handle(h)
+		if !handles(ep.AtDial, "inside the Dialer") {
+			return
 		}
 		select {
 		case dialRelease <- c:
-		case <-time.After(c17Wait):
-			return labels, g, processed, fmt.Sprintf("connection #%d: dialer not waiting", k)
+		case <-time.After(c17Limit()):
+			atomic.AddInt32(&c17Expired, 1)
+			problem = fmt.Sprintf("connection #%d: dialer not waiting", k)
+			return
 		}
 		if !c17WaitCh(c.optArrive) {
-			return labels, g, processed, fmt.Sprintf("connection #%d: Connect was not called after SetClient", k)
+			problem = fmt.Sprintf("connection #%d: Connect was not called after SetClient", k)
+			return
 		}
 		labels = append(labels, c17Label{Op: "sc", K: k}, c17Label{Op: "cb"})
-		for _, h := range ep.AtOpt {
-			handle(h)
+		if !handles(ep.AtOpt, "inside the ConnectOption") {
+			return
 		}
 		c.readerMayRun = true
 		c17Close(c.optRelease)
 		if !c17WaitCh(c.connectWritten) {
-			return labels, g, processed, fmt.Sprintf("connection #%d: CONNECT was not written", k)
+			problem = fmt.Sprintf("connection #%d: CONNECT was not written", k)
+			return
+		}
+		if !c.fetchDone() {
+			problem = fmt.Sprintf("connection #%d: BaseClient.Done did not return", k)
+			return
 		}
 		labels = append(labels, c17Label{Op: "cs", K: k})
-		for _, h := range ep.AtConn {
-			handle(h)
+		if !handles(ep.AtConn, "CONNECT written, before CONNACK") {
+			return
 		}
 		if ep.Refuse {
 			c.mc.Close()
 			c17Close(c.connGate)
 			labels = append(labels, c17Label{Op: "en", K: k})
-			select {
-			case <-c.cli.Done():
-			case <-time.After(c17Wait):
-				return labels, g, processed, fmt.Sprintf("connection #%d: reader did not finish after the refused attempt", k)
+			if !c17WaitCh(c.done) {
+				problem = fmt.Sprintf("connection #%d: reader did not finish after the refused attempt", k)
+				return
 			}
 			continue
 		}
@@ -777,10 +908,10 @@ func c17RunLoop(pre []int, eps []c17Epoch) (labels []c17Label, g *c17Log, proces
 		if !ep.SendFirst {
 			c17Close(c.connGate)
 		}
-		var done []bool
+		okBurst := false
 		sent := make(chan struct{})
 		go func() {
-			done = c.sendGroup(true, ep.Burst)
+			okBurst = sendGroup(c, true, ep.Burst)
 			close(sent)
 		}()
 		if ep.SendFirst {
@@ -789,32 +920,35 @@ func c17RunLoop(pre []int, eps []c17Epoch) (labels []c17Label, g *c17Log, proces
 			c17Close(c.connGate)
 		}
 		<-sent
-		for x, d := range done {
-			processed[ep.Burst[x].M] = d
+		if !okBurst {
+			return
 		}
 		if !c17WaitCh(c.activeArrive) {
-			return labels, g, processed, fmt.Sprintf("connection #%d: ConnState(Active) was not reported", k)
+			problem = fmt.Sprintf("connection #%d: ConnState(Active) was not reported", k)
+			return
 		}
-		for _, h := range ep.AtActive {
-			handle(h)
+		if !handles(ep.AtActive, "inside ConnState(Active)") {
+			return
 		}
 		c17Close(c.activeRelease)
 		labels = append(labels, c17Label{Op: "cr", K: k})
 		if !firstOK {
 			firstOK = true
 			if !c17WaitCh(connectDone) {
-				return labels, g, processed, "ReconnectClient.Connect did not return after the first CONNACK"
+				problem = "ReconnectClient.Connect did not return after the first CONNACK"
+				return
 			}
 		}
 		for _, grp := range ep.Later {
 			if grp[0].Op == "uh" {
-				handle(grp[0].H)
+				if !handles([]int{grp[0].H}, "after Connect") {
+					return
+				}
 				continue
 			}
 			labels = append(labels, grp...)
-			done := c.sendGroup(false, grp)
-			for x, d := range done {
-				processed[grp[x].M] = d
+			if !sendGroup(c, false, grp) {
+				return
 			}
 		}
 		if k == len(eps)-1 {
@@ -822,20 +956,20 @@ func c17RunLoop(pre []int, eps []c17Epoch) (labels []c17Label, g *c17Log, proces
 		}
 		c.mc.Close() // peer closes: the loop reconnects by itself
 		labels = append(labels, c17Label{Op: "en", K: k})
-		select {
-		case <-c.cli.Done():
-		case <-time.After(c17Wait):
-			return labels, g, processed, fmt.Sprintf("connection #%d: reader did not finish after peer close", k)
+		if !c17WaitCh(c.done) {
+			problem = fmt.Sprintf("connection #%d: reader did not finish after peer close", k)
+			return
 		}
 	}
-	ctx, cancel := ctxTimeout(c17Wait)
-	defer cancel()
 	disconnected = true
-	_ = cli.Disconnect(ctx)
-	if ctx.Err() != nil {
-		return labels, g, processed, "Disconnect did not finish"
+	if !c17Call(func() {
+		ctx, cancel := ctxTimeout(c17Wait)
+		defer cancel()
+		_ = cli.Disconnect(ctx)
+	}) {
+		problem = "Disconnect did not return"
 	}
-	return labels, g, processed, ""
+	return
 }
 
 func (g *c17Gen) loopScenario(nEp int) (pre []int, eps []c17Epoch) {
@@ -874,6 +1008,90 @@ func (g *c17Gen) loopScenario(nEp int) (pre []int, eps []c17Epoch) {
 		}
 		eps = append(eps, ep)
 	}
+	return
+}
+
+// ---------------------------------------------------------------- stress: Handle || RetryClient.Connect
+
+// spin ranges (iterations of an atomic add) for the two racing goroutines
+var c17StressSpinA, c17StressSpinB = 40, 400
+
+var c17Sink int32
+
+func c17Spin(n int) {
+	for i := 0; i < n; i++ {
+		atomic.AddInt32(&c17Sink, 1)
+	}
+}
+
+// c17StressRound: Handle(h1); SetClient; then RetryClient.Connect (the broker accepts at once and sends m1
+// right behind the CONNACK) on goroutine A, Handle(newH) on goroutine B, Stats() in a loop on goroutine C;
+// A and B are released together (channel close) and then spin spinA / spinB iterations. After both calls
+// returned, m2 is sent. On /repo, for every interleaving, Handle took effect at one label boundary of
+// the Connect steps (both are critical sections of RetryClient.mu): m2 must go to newH.
+func c17StressRound(newH, spinA, spinB int) (pre, win, post []c17Label, coq, desc []string, g *c17Log, problem string) {
+	g = &c17Log{}
+	m1 := c17Label{Op: "ib", K: 0, M: 1, Q: 1}
+	m2 := c17Label{Op: "ib", K: 0, M: 2, Q: 1}
+	pre = []c17Label{{Op: "uh", H: 1}, {Op: "dl"}, {Op: "sc", K: 0}}
+	win = []c17Label{{Op: "cb"}, {Op: "cs", K: 0}, {Op: "ca", K: 0}, m1, {Op: "cr", K: 0}}
+	post = []c17Label{m2}
+	rc := &mqtt.RetryClient{}
+	c := c17NewConn(0, g, 0, false)
+	defer c.releaseAll()
+	c17Close(c.activeRelease) // no gate in ConnState(Active)
+	c.autoAccept = append(append([]byte{}, connackOK...), encPublish(inMsg{Topic: []byte("t"), ID: 1, QoS: 1, Payload: c17Payload(m1)})...)
+	ack1 := c.expect(1)
+	ctx := context.Background()
+	rc.Handle(g.handler(1))
+	rc.SetClient(ctx, c.cli)
+	var stopC int32
+	start := make(chan struct{})
+	aDone, bDone, cDone := make(chan struct{}), make(chan struct{}), make(chan struct{})
+	hNew := g.handler(newH)
+	go func() {
+		defer close(aDone)
+		<-start
+		c17Spin(spinA)
+		_, _ = rc.Connect(ctx, "c17")
+	}()
+	go func() {
+		defer close(bDone)
+		<-start
+		c17Spin(spinB)
+		rc.Handle(hNew)
+	}()
+	go func() {
+		defer close(cDone)
+		<-start
+		for atomic.LoadInt32(&stopC) == 0 {
+			_ = rc.Stats()
+		}
+	}()
+	runtime.Gosched()
+	close(start)
+	okA, okB := c17WaitCh(aDone), c17WaitCh(bDone)
+	atomic.StoreInt32(&stopC, 1)
+	processed := map[int]bool{}
+	switch {
+	case !okA:
+		problem = "RetryClient.Connect did not return"
+	case !okB:
+		problem = "Handle did not return"
+	case !c.fetchDone():
+		problem = "BaseClient.Done did not return"
+	default:
+		processed[1] = c.waitAck(ack1)
+		if !processed[1] {
+			problem = "the message behind the CONNACK was never acknowledged"
+		} else if done := c.sendGroup(false, post); !done[0] {
+			problem = "the message sent after Connect and Handle returned was never acknowledged"
+		} else {
+			processed[2] = true
+		}
+	}
+	all := append(append(append([]c17Label{}, pre...), win...), post...)
+	coq, desc, _ = c17Obs(all, g.snapshot(), processed)
 	return
 }
 
@@ -926,6 +1144,9 @@ func runC17(cfg *runCfg) error {
 			stats["label_"+l.Op]++
 			if l.Op == "ib" {
 				stats[fmt.Sprintf("msg_qos%d", l.Q)]++
+				if l.Re {
+					stats["msg_handler_calls_Handle"]++
+				}
 			}
 			if l.Op == "uh" && l.H == 0 {
 				stats["handle_nil"]++
@@ -934,6 +1155,10 @@ func runC17(cfg *runCfg) error {
 	}
 
 	addSeq := func(ls []c17Label, kind string) {
+		if c17GiveUp() {
+			stats["skipped_after_expired_waits"]++
+			return
+		}
 		ls = c17Normalise(ls)
 		b := c17NewBare()
 		t0 := time.Now()
@@ -949,7 +1174,7 @@ func runC17(cfg *runCfg) error {
 		if !ord {
 			m.ImplViolations = append(m.ImplViolations, map[string]interface{}{"family": "seq", "what": "handler calls out of order", "case": c})
 		}
-		seq.cases = append(seq.cases, cTuple(c17Coq(ls), cListInline(coq)))
+		seq.cases = append(seq.cases, cTuple(c17Coq(ls, b.log), cListInline(coq)))
 		seq.fam = append(seq.fam, c)
 		note(fmt.Sprint(c17Desc(ls)), ls)
 		count(ls)
@@ -960,7 +1185,7 @@ func runC17(cfg *runCfg) error {
 	}
 
 	// ---- seq: Handle inserted at every position (and every pair of positions) of two skeletons
-	for which := 0; which < 2; which++ {
+	for which := 0; which < 3; which++ {
 		sk := c17Skeleton(which)
 		for _, first := range []int{1, 0} { // with / without a handler registered before everything
 			base := sk
@@ -984,7 +1209,7 @@ func runC17(cfg *runCfg) error {
 		}
 	}
 	// ---- seq: random walks over the labels the model enables
-	nRand := 500
+	nRand := 350
 	if cfg.tier == "thorough" {
 		nRand = 10000
 	} else if cfg.tier == "search" {
@@ -998,6 +1223,10 @@ func runC17(cfg *runCfg) error {
 
 	// ---- loop: the real ReconnectClient
 	addLoop := func(pre []int, eps []c17Epoch, kind string) {
+		if c17GiveUp() {
+			stats["skipped_after_expired_waits"]++
+			return
+		}
 		t0 := time.Now()
 		ls, g, processed, problem := c17RunLoop(pre, eps)
 		c17Slow("loop", t0, ls, problem)
@@ -1010,7 +1239,7 @@ func runC17(cfg *runCfg) error {
 		if !ord {
 			m.ImplViolations = append(m.ImplViolations, map[string]interface{}{"family": "loop", "what": "handler calls out of order", "case": c})
 		}
-		loop.cases = append(loop.cases, cTuple(c17Coq(ls), cListInline(coq)))
+		loop.cases = append(loop.cases, cTuple(c17Coq(ls, g), cListInline(coq)))
 		loop.fam = append(loop.fam, c)
 		note("loop"+fmt.Sprint(c17Desc(ls)), ls)
 		count(ls)
@@ -1050,12 +1279,23 @@ func runC17(cfg *runCfg) error {
 				ep.Later = append(ep.Later, []c17Label{{Op: "uh", H: l[0]}})
 			}
 			ep.Later = append(ep.Later, []c17Label{{Op: "ib", K: k, M: mm + 3, Q: byte(1 + k)}})
+			if k == 0 && (mask/3)%2 == 0 {
+				// the handler that receives the last message of connection 0 registers h20 from inside its
+				// callback: every message of connection 1 before a newer Handle call must go to h20
+				last := &ep.Later[len(ep.Later)-1][0]
+				last.Re, last.H = true, 20
+			}
+			if k == 1 && (mask/3)%4 == 1 {
+				// ... and the one that receives the QoS 1 message right behind the second CONNACK registers h21
+				// (the reconnect loop is still inside Connect)
+				ep.Burst[1].Re, ep.Burst[1].H = true, 21
+			}
 			mm += 4
 			eps = append(eps, ep)
 		}
 		addLoop(pre, eps, "enumerated")
 	}
-	nLoop := 250
+	nLoop := 200
 	if cfg.tier == "thorough" {
 		nLoop = 6000
 	} else if cfg.tier == "search" {
@@ -1068,13 +1308,17 @@ func runC17(cfg *runCfg) error {
 	}
 
 	// ---- race: Handle truly concurrent with a window of steps on a bare RetryClient
-	nRace := 300
+	nRace := 210
 	if cfg.tier == "thorough" {
 		nRace = 8000
 	} else if cfg.tier == "search" {
 		nRace = 600
 	}
 	for i := 0; i < nRace; i++ {
+		if c17GiveUp() {
+			stats["skipped_after_expired_waits"]++
+			continue
+		}
 		ib := func(k, mm int) c17Label { return c17Label{Op: "ib", K: k, M: mm, Q: 1} }
 		pre := []c17Label{{Op: "uh", H: 1}, {Op: "dl"}, {Op: "sc", K: 0}, {Op: "cb"}, {Op: "cs", K: 0}, {Op: "ca", K: 0}, ib(0, 1), {Op: "cr", K: 0}}
 		var win, post []c17Label
@@ -1127,13 +1371,13 @@ func runC17(cfg *runCfg) error {
 		b.cleanup()
 		all := append(append(append([]c17Label{}, pre...), win...), post...)
 		if !ok {
-			m.ImplViolations = append(m.ImplViolations, map[string]interface{}{"family": "race", "kind": kind, "schedule": c17Desc(all), "concurrent": fmt.Sprintf("Handle(h%d)", newH), "stuck": b.problem})
+			m.ImplViolations = append(m.ImplViolations, map[string]interface{}{"family": "race", "kind": kind, "schedule": c17Desc(all), "concurrent": c17Label{Op: "uh", H: newH}.desc(), "stuck": b.problem})
 			continue
 		}
 		coq, desc, _ := c17Obs(all, b.log.snapshot(), b.processed)
-		c := map[string]interface{}{"kind": kind, "client": "bare RetryClient", "before": c17Desc(pre), "concurrent_with_window": fmt.Sprintf("Handle(h%d)", newH),
+		c := map[string]interface{}{"kind": kind, "client": "bare RetryClient", "before": c17Desc(pre), "concurrent_with_window": c17Label{Op: "uh", H: newH}.desc(),
 			"window": c17Desc(win), "after": c17Desc(post), "deliveries": desc}
-		race.cases = append(race.cases, cTuple(c17Coq(pre), fmt.Sprint(newH), c17Coq(win), c17Coq(post), cListInline(coq)))
+		race.cases = append(race.cases, cTuple(c17Coq(pre, b.log), fmt.Sprint(newH), c17Coq(win, b.log), c17Coq(post, b.log), cListInline(coq)))
 		race.fam = append(race.fam, c)
 		stats["race_"+kind]++
 		stats["race_outcome_"+fmt.Sprint(desc)]++
@@ -1151,6 +1395,66 @@ func runC17(cfg *runCfg) error {
 	}
 	stats["race_distinct_outcomes"] = outcomes
 
+	// ---- stress: Handle racing with RetryClient.Connect itself (no gate can sit between Connect's
+	// lock section and its install; bounded sampling of real interleavings)
+	budget := 2500 * time.Millisecond
+	maxRounds := 30000
+	if cfg.tier == "thorough" {
+		budget, maxRounds = 25*time.Second, 400000
+	} else if cfg.tier == "search" {
+		budget, maxRounds = 6*time.Second, 80000
+	}
+	var stress c17Family
+	type stressAgg struct {
+		n   int
+		coq string
+		c   map[string]interface{}
+	}
+	agg := map[string]*stressAgg{}
+	var aggOrder []string
+	rounds := 0
+	tStress := time.Now()
+	for rounds < maxRounds && (time.Since(tStress) < budget || rounds < 1500) && !c17GiveUp() {
+		newH := 2
+		if r.Intn(8) == 0 {
+			newH = 0
+		}
+		spinA, spinB := r.Intn(c17StressSpinA), r.Intn(c17StressSpinB)
+		pre, win, post, coq, desc, g, problem := c17StressRound(newH, spinA, spinB)
+		rounds++
+		all := append(append(append([]c17Label{}, pre...), win...), post...)
+		if problem != "" {
+			m.ImplViolations = append(m.ImplViolations, map[string]interface{}{"family": "stress", "schedule": c17Desc(all), "concurrent": c17Label{Op: "uh", H: newH}.desc()+" || RetryClient.Connect", "stuck": problem})
+			break
+		}
+		key := fmt.Sprint(newH, desc)
+		a := agg[key]
+		if a == nil {
+			a = &stressAgg{coq: cTuple(c17Coq(pre, g), fmt.Sprint(newH), c17Coq(win, g), c17Coq(post, g), cListInline(coq)),
+				c: map[string]interface{}{"kind": "stress", "client": "bare RetryClient", "before": c17Desc(pre),
+					"concurrent": c17Label{Op: "uh", H: newH}.desc()+" on one goroutine, RetryClient.Connect on another, Stats() on a third",
+					"connect_steps": c17Desc(win), "after_both_returned": c17Desc(post), "deliveries": desc}}
+			agg[key] = a
+			aggOrder = append(aggOrder, key)
+		}
+		a.n++
+	}
+	for _, key := range aggOrder {
+		a := agg[key]
+		a.c["rounds_with_this_outcome"] = a.n
+		stress.cases = append(stress.cases, a.coq)
+		stress.fam = append(stress.fam, a.c)
+		stats["stress_outcome_"+key] = a.n
+	}
+	stats["stress_rounds"] = rounds
+	if len(stress.fam) > 0 {
+		m.Samples = append(m.Samples, stress.fam[0])
+	}
+
+	cf.def("stress_cases", "list c17_race_case", cList(stress.cases))
+	cf.result("V_stress", "c17_race_prop_violations stress_cases")
+	cf.result("M_stress", "c17_race_model_mismatches stress_cases")
+	m.Families["stress"] = stress.fam
 	cf.def("seq_cases", "list c17_case", cList(seq.cases))
 	cf.result("V_seq", "c17_prop_violations seq_cases")
 	cf.result("M_seq", "c17_model_mismatches seq_cases")
@@ -1163,9 +1467,9 @@ func runC17(cfg *runCfg) error {
 	m.Families["seq"] = seq.fam
 	m.Families["loop"] = loop.fam
 	m.Families["race"] = race.fam
-	m.Evaluations = len(seq.cases) + len(loop.cases) + len(race.cases)
+	m.Evaluations = len(seq.cases) + len(loop.cases) + len(race.cases) + rounds
 	m.DistinctNontrivial = nontrivial
-	m.Rule = "seq: a bare RetryClient executes a schedule of the model label by label (Handle inserted at every position / pair of positions of two skeleton schedules, one of them with SetClient while the older connection is still read; random walks over enabled labels, 12-47 labels, up to 7 clients); loop: a real ReconnectClient with Handle calls at the subsets of the eleven gate positions of two connections and random scenarios of 1-6 connections with refused attempts, bursts behind CONNACK, dialer-set handlers; race: Handle concurrent with 1-3 messages or with a whole reconnect. Every CONNACK is followed in the same send by the burst; QoS 0/1/2. Non-trivial = distinct forced schedule with a Handle call, two or more connected connections and a message on a later connection."
+	m.Rule = "seq: a bare RetryClient executes a schedule of the model label by label (Handle inserted at every position / pair of positions of two skeleton schedules, one of them with SetClient while the older connection is still read; random walks over enabled labels, 12-47 labels, up to 7 clients); loop: a real ReconnectClient with Handle calls at the subsets of the eleven gate positions of two connections and random scenarios of 1-6 connections with refused attempts, bursts behind CONNACK, dialer-set handlers; race: Handle concurrent with 1-3 messages or with a whole reconnect; stress: time-bounded rounds of Handle concurrent with an ungated RetryClient.Connect (spin offsets, Stats() contention), a message sent after both returned, rounds aggregated by outcome before the Coq evaluation. Messages whose handler calls Handle from inside the callback (new handler, same handler, nil) in seq (third skeleton, 1 in 8 random messages) and loop (enumerated: last message of connection 0, QoS 1 message right behind the second CONNACK). Every CONNACK is followed in the same send by the burst; QoS 0/1/2. Non-trivial = distinct forced schedule with a Handle call, two or more connected connections and a message on a later connection."
 	m.Distribution["counts"] = stats
 	m.Distribution["seq_cases"] = len(seq.cases)
 	m.Distribution["loop_cases"] = len(loop.cases)
